@@ -224,6 +224,7 @@ Proof.
   - left. unfold unsubscribe_middle. apply has_entry_enqueue; try assumption. intros. eapply enc_unsubscribe_fits; eassumption.
   - left. exact He.
   - left. exact He.
+  - left. exact He.
   - left. cbn [set_ob s_ob]. now apply has_entry_arm_replay.
   - left. cbn [set_ob s_ob]. now apply has_entry_compact.
   - unfold connack_label, connack_process. destruct p as [p|]; [|left; exact He]. destruct p; try (left; exact He).
